@@ -312,8 +312,16 @@ fn run(name: &PathBuf, debugger_opts: Option<debugger::Options>, minimal: bool) 
                 // Read to byte buffer
                 let mut file = File::open(&name).into_diagnostic()?;
                 let f_size = file.metadata().unwrap().len();
-                let mut buffer = Vec::with_capacity(f_size as usize);
-                file.read_to_end(&mut buffer).into_diagnostic()?;
+                if f_size % 2 != 0 {
+                    bail!("File is not aligned to 16 bits")
+                }
+                // No image is longer than the address space: one word more than that is enough to see that
+                // the file is too long, however large it is
+                const READ_LIMIT: u64 = 2 * (0x1_0000 + 1);
+                let mut buffer = Vec::with_capacity(f_size.min(READ_LIMIT) as usize);
+                file.take(READ_LIMIT)
+                    .read_to_end(&mut buffer)
+                    .into_diagnostic()?;
 
                 if buffer.len() % 2 != 0 {
                     bail!("File is not aligned to 16 bits")
